@@ -486,3 +486,19 @@ def r13(ctx, lib):
                   'the characters of a glob class are collected into the regex class verbatim: the regex crate reads `&&` as intersection, `~~` as symmetric difference, `--` as difference, `\\d` / `\\w` as Perl '
                   'classes and `[` as a nested class, so `--name "[a&&b]"` selects nothing, `[\\d]` selects digits instead of d, and `[[]` is rejected')
     ctx.floor(rule, 'closures emitting a regex character class', n, 2, g.where())
+    # the class body is read up to the first `]` that is not escaped: the repeated member parser offers `\` + any character next to none_of("]")
+    m = 0
+    for x in [g] + [lib.body(cp) for cp in lib.closures_of(g.path)]:
+        for c in x.calls(r'multi::many0$'):
+            sl = backslice(x, [c.args[0]])
+            nn = [k for k in sl.calls if k.matches(r'complete::none_of$')]
+            vals = [str(v or '') for v in slice_const_values(lib, sl)]
+            if len(nn) != 1 or '"]"' not in vals or any(k.matches(r'multi::many0$|separated_list0$') for k in sl.calls):
+                continue        # not the member parser of a class (the token loop contains everything)
+            m += 1
+            pair = any(v in ('"\\\\"', "'\\\\'") for v in vals) and sl.has_call(r'complete::anychar$|sequence::(tuple|pair|preceded)$')
+            pair = pair or any('anychar' in v for v in vals) and any(v in ('"\\\\"', "'\\\\'") for v in vals)
+            ctx.check(pair, rule, x.path + '|escape-is-a-member', c.where(), 'inside [...] a backslash and the character after it are read as one member (`\\]` does not close the class)',
+                      'the body of a class is read with many0(none_of("]")): the first `]` ends it even after a backslash, although the escape function behind it was written to handle `\\x` - '
+                      '`--name "a[\\]x]"` becomes the regex a[\\\\]x\\] and selects `a\\x]` instead of `a]` and `ax`')
+    ctx.floor(rule, 'member parsers of glob classes', m, 1, g.where())
